@@ -1,4 +1,5 @@
 """Per-run coverage summary (what the evidence file is aggregated from)."""
+from . import programs
 
 
 def _bucket(n):
@@ -162,6 +163,7 @@ def summarise(run, res):
         'mode': run['config']['mode'],
         'K': nC,
         'families': [c['program']['family'] for c in run['clients']],
+        'features': [programs.features(c['program']) for c in run['clients']],
         'stats': res.get('stats', {}),
         'caller_owned_mutation': mutation,
         'probes': probes,
